@@ -3,7 +3,8 @@ import PoxModel.Proofs.Revent
 
 Property theorems only (helper lemmas: `Proofs/Revent.lean`; model: `Model/Revent.lean`, which mirrors
 `pox/lib/revent/revent.py`).  The model is parameterised by a `Variant`: which repairs the tree under test has.  The
-harness reads it off the source on every run; `Variant.current` (D24 and D60 repaired) is the tree as committed, and that
+harness determines it on every run; `Variant.current` (D24, D60, one-shot-fires-once and non-event-rejected all repaired)
+is the tree as committed, and that
 is the variant the examples run on.  Theorems hold for every variant unless they say which flag they need; a tree that
 reverts a repair is modelled as such, and the statements that are false of it are kept, with kernel-checked witnesses,
 under "Regression witnesses" at the end.
@@ -14,9 +15,9 @@ and handlers that ask to be removed are never invoked again".  Under a re-entran
 delivery fires a one-shot handler that an outer, still running delivery also holds in its snapshot.  The check reads it
 as follows.  (R1) Per raise, the snapshot rules: `delivery_exact`.  (R2) "One-shot" is a promise about the lifetime of the
 subscription — its code runs at most once, ever — and takes precedence over R1 for one-shot entries: an in-flight
-delivery must skip a one-shot entry that has already fired.  The tree as committed violates R2 (`once_inflight_witness`,
-proposed finding C05-1; real code: `['A','A','B','B']`); with fixes/C05_once_fires_once (`oncePre`) `once_fires_once`
-proves it for every history.  (R3) A handler that *asks* to be removed is an unsubscription like any other: it is not
+delivery must skip a one-shot entry that has already fired.  The tree as committed has that repair (`oncePre`, 195cf63):
+`once_fires_once` proves R2 for every history; a tree without it violates R2 (`once_inflight_witness`, under Regression
+witnesses; real code before the repair: `['A','A','B','B']`).  (R3) A handler that *asks* to be removed is an unsubscription like any other: it is not
 invoked by any raise that starts afterwards (`once_removed_later`), but a delivery already in flight still reaches it, as
 R1's "removals never cause a handler to be skipped" demands (`remove_inflight_witness`).
 
@@ -178,7 +179,7 @@ theorem once_removed_later (β : Beh) (m : M) (hi : MInv m) (fr : Frame) (st : L
 def once_at_most_once (β : Beh) (v : Variant) (cfg : Nat → List Nat × Bool × Bool) (ops : List SAct) (n : Nat) : Prop :=
   ∀ s x, liveOnce s x (run β n (M.init v (fresh cfg) ops)).log ≤ 1
 
-/-- **once_fires_once.** (`oncePre`: fixes/C05_once_fires_once.)  For every history, handler behaviour and number of
+/-- **once_fires_once.** (`oncePre`: the tree as committed.)  For every history, handler behaviour and number of
 steps — re-entrant raises of the same event from inside handlers (also from inside the one-shot handler itself), on any
 source, included — the code of a one-shot subscription runs at most once; and once it has run the subscription is in no
 handler list of its source. -/
@@ -571,7 +572,7 @@ example : let m := run d60β 4 (M.init ⟨false, true, false, false⟩ (fresh cf
 example : ((run d60β 12 (M.init ⟨false, true, false, false⟩ (fresh cfg01) d60ops)).srcs 0).subscribers 0 = [] ∧
     callsOf 1 (run d60β 12 (M.init ⟨false, true, false, false⟩ (fresh cfg01) d60ops)).log = [] := by decide
 
-/-- **nonevent_rejected.** (`junkRejected`: fixes/C05_nonevent_raise_rejected.)  Raising something that is neither an
+/-- **nonevent_rejected.** (`junkRejected`: the tree as committed.)  Raising something that is neither an
 event instance nor an event class — so certainly not an event type the source declares — is rejected with `ReventError`
 at any moment, by `raiseEvent`, and by `raiseEventNoErrors` unless the source accepts every event type (then the
 exception is the hook's business and the call answers `None`); no delivery starts, no handler runs, nothing is logged. -/
@@ -583,17 +584,17 @@ theorem nonevent_rejected (m : M) (hv : m.v.junkRejected = true) (i et : Nat) (c
   intro m'
   refine ⟨rfl, rfl, by simp [m', exec, hv], fun h => by simp [m', exec, hv, h]⟩
 
-/-- … and the tree as committed does not: a non-Event *class* runs into an unbound local (`UnboundLocalError`), any other
-object into `issubclass()`'s `TypeError` — proposed finding C05-2. -/
+/-! ## Regression witnesses: what is false of a tree that reverts a repair
+
+`Variant.asIs` is the tree before D24 and D60, `Variant.phase3` the tree before the one-shot and non-event repairs.  The harness models a tree that reverts either repair as such, so the
+correspondence still holds on it, and its oracle reports the failing input as a violation. -/
+
+/-- a tree without 620cf65: raising a non-Event *class* runs into an unbound local (`UnboundLocalError`), any other
+object into `issubclass()`'s `TypeError` (finding C05-2, fixed) -/
 theorem nonevent_defect (m : M) (hv : m.v.junkRejected = false) (i et : Nat) (g : Bool) :
     (exec m ⟨i, .raise et (.junk true) false⟩ g).pend = some (.exc .unbound, g) ∧
     (exec m ⟨i, .raise et (.junk false) false⟩ g).pend = some (.exc .other, g) := by
   simp [exec, hv]
-
-/-! ## Regression witnesses: what is false of a tree that reverts a repair
-
-`Variant.asIs` is the tree before D24 and D60.  The harness models a tree that reverts either repair as such, so the
-correspondence still holds on it, and its oracle reports the failing input as a violation. -/
 
 /-- a tree without D24: the full statement `noerrors_full` fails -/
 theorem noerrors_defect : ¬ noerrors_full d24β Variant.asIs cfg01 d24ops 8 :=
@@ -629,8 +630,8 @@ def wops : List SAct := [⟨0, .add 0 1 0 false none⟩, ⟨0, .add 0 2 0 true n
   ⟨1, .add 0 5 0 false none⟩, ⟨1, .add 0 6 0 false none⟩, ⟨1, .add 0 7 0 false none⟩, ⟨0, .raise 0 .inst false⟩]
 def wcfg : Nat → List Nat × Bool × Bool := fun i => if i = 1 then ([0], false, true) else ([0, 1], false, false)
 def w (n : Nat) : M := run wβ n (M.init Variant.current (fresh wcfg) wops)
-/-- the same history on a tree with fixes/C05_once_fires_once -/
-def wP (n : Nat) : M := run wβ n (M.init ⟨true, true, true, false⟩ (fresh wcfg) wops)
+/-- the same history on a tree without the one-shot repair -/
+def wOld (n : Nat) : M := run wβ n (M.init Variant.phase3 (fresh wcfg) wops)
 def eA : Entry := ⟨0, 1, false, 1, none⟩
 def eB : Entry := ⟨0, 2, true, 2, none⟩
 def eC : Entry := ⟨5, 3, false, 3, none⟩
@@ -659,18 +660,11 @@ example : stopsAt .none true = false ∧ stopsAt .other true = true ∧ stopsAt 
 example : ∃ fr st, (w 32).pend = none ∧ (w 32).stack = fr :: st ∧ fr.cur = some (eB, [], .tup2 false true) :=
   ⟨_, _, rfl, rfl, rfl⟩
 
-/-- **once_inflight_witness** (R2 fails on the tree as committed; proposed finding C05-1).  B is one-shot.  The nested
-delivery 2 runs its code; the outer delivery 0, which started earlier and still holds B in its snapshot, runs it again:
-the code of a one-shot subscription has run twice.  (Real code, same history: `['A','A','B','B']`.) -/
-theorem once_inflight_witness :
-    eB.once = true ∧ Ev.call 2 0 eB true ∈ (w 40).log ∧ Ev.call 0 0 eB true ∈ (w 40).log ∧ liveOnce 0 2 (w 40).log = 2 ∧
-    ¬ once_at_most_once wβ Variant.current wcfg wops 40 :=
-  ⟨rfl, by decide, by decide, by decide, fun h => absurd (h 0 2) (by decide)⟩
-
-/-- … and with fixes/C05_once_fires_once the same history: delivery 0 still *reaches* B in its place (`delivery_exact`
-is untouched) but does not run its code again -/
-example : callsOf 0 (wP 42).log = [eC, eA, eB] ∧ liveCallsOf 0 (wP 42).log = [eC, eA] ∧ liveCallsOf 2 (wP 42).log = [eD, eA, eB] ∧
-    liveOnce 0 2 (wP 42).log = 1 ∧ (wP 42).stack = [] ∧ ((wP 42).srcs 0).subscribers 0 = [eD, eA] := by decide
+/-- R2 on the tree as committed, same history: the nested delivery 2 runs B's code; the outer delivery 0, which started
+earlier and still holds B in its snapshot, *reaches* B in its place (`delivery_exact` is untouched) but does not run its
+code again. -/
+example : callsOf 0 (w 42).log = [eC, eA, eB] ∧ liveCallsOf 0 (w 42).log = [eC, eA] ∧ liveCallsOf 2 (w 42).log = [eD, eA, eB] ∧
+    liveOnce 0 2 (w 42).log = 1 ∧ (w 42).stack = [] ∧ ((w 42).srcs 0).subscribers 0 = [eD, eA] := by decide
 
 /-- **remove_inflight_witness** (reading R3, not a defect).  In history `r` handler A re-raises the event and handler B
 (not one-shot) answers "remove me": the nested delivery 1 invokes B, B is unsubscribed, and the outer delivery 0 — in
@@ -691,5 +685,15 @@ theorem remove_inflight_witness :
 example : ((w 40).srcs 1).isDeclared 1 = false ∧ ((w 40).srcs 0).isDeclared 3 = false ∧ ((w 40).srcs 1).isDeclared 3 = false := by decide
 example : 3 ≤ ((w 40).srcs 0).nextEid ∧ ((w 40).srcs 0).subscribers 0 = [eD, eA] := by decide
 example : ((w 0).srcs 1).inited = false ∧ ((w 40).srcs 1).inited = true := by decide
+
+/-! ## Regression witness for the one-shot repair (uses the running example above) -/
+
+/-- **once_inflight_witness** (a tree without 195cf63; finding C05-1, fixed).  B is one-shot.  The nested delivery 2 runs
+its code; the outer delivery 0, which started earlier and still holds B in its snapshot, runs it again: the code of a
+one-shot subscription has run twice.  (Real code before the repair, same history: `['A','A','B','B']`.) -/
+theorem once_inflight_witness :
+    eB.once = true ∧ Ev.call 2 0 eB true ∈ (wOld 40).log ∧ Ev.call 0 0 eB true ∈ (wOld 40).log ∧ liveOnce 0 2 (wOld 40).log = 2 ∧
+    ¬ once_at_most_once wβ Variant.phase3 wcfg wops 40 :=
+  ⟨rfl, by decide, by decide, by decide, fun h => absurd (h 0 2) (by decide)⟩
 
 end Pox.C05
